@@ -72,14 +72,19 @@ def main():
                     print(results[-1])
                     continue
             else:
-                f = os.path.join(copy, 'src', m['file'])
-                s = open(f).read()
-                if s.count(m['old']) < 1:
+                missing = False
+                for ed in m.get('edits') or [m]:
+                    f = os.path.join(copy, 'src', ed['file'])
+                    s = open(f).read()
+                    if s.count(ed['old']) < 1:
+                        missing = True
+                        break
+                    s = s.replace(ed['old'], ed['new'], 1)
+                    open(f, 'w').write(s)
+                if missing:
                     results.append((m['id'], m['property'], 'PATTERN-NOT-FOUND', ''))
                     print(results[-1])
                     continue
-                s = s.replace(m['old'], m['new'], 1)
-                open(f, 'w').write(s)
             verdicts = []
             for prop in m.get('checks') or [m['property']]:
                 code, out = run_check(prop, copy, tier)
